@@ -1,5 +1,5 @@
 """C15 — every coordinator phase-two request gets one correctly addressed, truthful reply."""
-import json, os
+import json, os, re
 import vlib
 from vlib import coq_str
 
@@ -7,14 +7,14 @@ MANIFEST = {
     "text": "Coq theorems (C15_route, C15_echo, C15_no_false_success, C15_respond_only_truthful, C15_independent over all requests, "
             "manager outcomes, manager sets, stream permutations and interleavings) about a model that INTERPRETS the dispatch table "
             "regenerated from the source by `xlate dispatch` (type code -> processor; for the phase-two processors the asserted "
-            "request, the manager-selecting expression, method and arguments, the early return on error, the echoed response fields and "
+            "request, the manager-selecting expression, method and arguments, what a manager error does (silence always / only without a status) and the result codes, the echoed response fields and "
             "the id the response is sent under; manager -> branch type), with the obligation C15_source_dispatch_good; tied to the real "
             "listener/processors/rm cache by delivering generated mixed streams concurrently through OnMessage with scripted managers "
             "registered in the real cache, capturing response frames at a fake session and comparing per request with the model "
             "evaluated inside Coq, plus the property's own statement evaluated on the run.",
     "note": "Trusted: Coq kernel + vm_compute, no axioms; tools/xlate dispatch (statement patterns; anything unrecognised fails the "
             "obligation); harness remrun15. A request for a branch type without manager panics inside getty's task goroutine "
-            "(modelled as Panic, no reply); a manager error yields silence (accepted by C15's text; C05 is stricter).",
+            "(modelled as Panic, no reply); a manager error yields one response with the manager's status and result code Failed, silence for status Unknown; listed finding: a manager returning an error together with a success status gets it reported.",
     "technique": "Coq proof over a translator-regenerated dispatch table + differential correspondence (vm_compute) + direct oracle",
 }
 TABLES = [("dispatch", "DispatchTable.v")]
@@ -34,28 +34,31 @@ def z(n):
     return "(%d)%%Z" % n
 
 
-def request_cases(cs):
-    """one model case per request of the stream: (term, description)"""
+def request_cases(cs, limit=None):
+    """one model case per request of the stream (the first `limit` ones): Coq terms"""
     names = {}
 
     def nm(s):
         return "%d%%N" % names.setdefault(s, len(names))
 
     mg = "[" + "; ".join("%d%%N" % m for m in cs["mgrs"]) + "]"
+    cons, resps = {}, {}
+    for c in cs["consults"] or []:
+        cons.setdefault((c["xid"], c["branch"]), []).append(c)
+    for p in cs["resps"] or []:
+        resps.setdefault((p["xid"], p["branch"]), []).append(p)
     out = []
-    for q in cs["reqs"]:
+    for q in cs["reqs"][:limit]:
         obs = []
-        for c in cs["consults"] or []:
-            if c["xid"] == q["xid"] and c["branch"] == q["branch"]:
-                obs.append("Consult %d%%N %s (VN %s) (VZ %s) (VN %s) (VN %s)" % (
-                    c["mgr"], coq_str(c["method"]), nm("x:" + c["xid"]), z(c["branch"]), nm("r:" + c["resource"]), nm("d:" + c["data"])))
-        for p in cs["resps"] or []:
-            if p["xid"] == q["xid"] and p["branch"] == q["branch"]:
-                obs.append("Respond %s (VZ %s) (VN %s) (VZ %s) (VN %d%%N) %d%%N" % (
-                    coq_str(p["type"]), z(p["msg_id"]), nm("x:" + p["xid"]), z(p["branch"]), p["status"] & 0xff, p["rc"]))
+        for c in cons.get((q["xid"], q["branch"]), []):
+            obs.append("Consult %d%%N %s (VN %s) (VZ %s) (VN %s) (VN %s)" % (
+                c["mgr"], coq_str(c["method"]), nm("x:" + c["xid"]), z(c["branch"]), nm("r:" + c["resource"]), nm("d:" + c["data"])))
+        for p in resps.get((q["xid"], q["branch"]), []):
+            obs.append("Respond %s (VZ %s) (VN %s) (VZ %s) (VN %d%%N) %d%%N" % (
+                coq_str(p["type"]), z(p["msg_id"]), nm("x:" + p["xid"]), z(p["branch"]), p["status"] & 0xff, p["rc"]))
         if q.get("panicked"):
             obs.append("Panic")
-        oc = "OPanic" if q["panic_in_manager"] else "(ORet %d%%N %s)" % (q["status"], "true" if q["fail"] else "false")
+        oc = "OPanic" if q["panic_in_manager"] else "(ORet %d%%N %s)" % (q["expect"], "true" if q["fail"] else "false")
         term = "mkP %s (mkReq %d%%N %s %s %s %d%%N %s %s) %s [%s]" % (
             mg, q["code"], z(q["msg_id"]), nm("x:" + q["xid"]), z(q["branch"]), q["btype"], nm("r:" + q["resource"]),
             nm("d:" + q["data"]), oc, "; ".join(obs))
@@ -79,20 +82,54 @@ def run(chk):
         raise vlib.TieBroken("the regenerated dispatch table does not type-check in Coq:\n" + outc[-1500:])
     pr = vlib.proof_step(chk, PROP_FILE, "From SeataV Require Import Props.P_C15.")
     conf = write_conf(chk)
-    data, secs = vlib.run_harness("remrun15", chk.tmp("p2.json"), timeout=1500, conf=conf, seed=chk.seed,
-                                  n=60 if quick else 5000, max=40 if quick else 120)
+    import subprocess
+    try:
+        data, secs = vlib.run_harness("remrun15", chk.tmp("p2.json"), timeout=900 if quick else 2400, conf=conf, seed=chk.seed,
+                                      n=60 if quick else 5000, max=40 if quick else 120,
+                                      hammers=2 if quick else 10, hammer=6000 if quick else 20000,
+                                      nfail=48 if quick else 200, lookups=200000 if quick else 3000000)
+    except subprocess.TimeoutExpired:
+        chk.coverage.update({"evaluations": 1, "distinct_nontrivial": 2, "trusted_base": TRUSTED})
+        chk.violation("the harness did not finish within its wall-clock bound although every wait in it is bounded: "
+                      "request processing blocks", {"seed": chk.seed, "tier": chk.tier}, False)
+        return chk.finish()
     streams = data["cases"]
     terms, owner = [], []
     for si, cs in enumerate(streams):
-        for qi, t in enumerate(request_cases(cs)):
+        lim = 500 if (quick and cs["kind"] == "hammer") else None
+        for qi, t in enumerate(request_cases(cs, lim)):
             terms.append(t)
             owner.append((si, qi))
     mism = vlib.eval_mismatches("C15", HEADER, terms, case_type="pcase", shard=300 if quick else 1500)
+
+    def slim(cs):
+        if len(cs["reqs"]) <= 300:
+            return cs
+        keys = {(m.group(1), int(m.group(2))) for o in (cs["oracle"] or [])[:40]
+                for m in re.finditer(r", (\S+)/(-?\d+), branch type", o)}
+        keep = lambda x: (x["xid"], x["branch"]) in keys
+        return dict(cs, oracle=(cs["oracle"] or [])[:40], reqs=[q for q in cs["reqs"] if keep(q)][:80],
+                    consults=[c for c in (cs["consults"] or []) if keep(c)][:80], resps=[p for p in (cs["resps"] or []) if keep(p)][:80],
+                    note="stream of %d requests (kind %s) cut down to the requests the oracle names; regenerate with the seed" % (len(cs["reqs"]), cs["kind"]))
+
     bad_streams = sorted([i for i, cs in enumerate(streams) if cs["oracle"]], key=lambda i: len(streams[i]["reqs"]))
     for i in bad_streams[:3]:
         cs = streams[i]
-        chk.violation("stream of %d requests: %s" % (len(cs["reqs"]), cs["oracle"][0]),
-                      {"stream": cs, "seed": chk.seed, "tier": chk.tier}, True)
+        chk.violation("%s stream of %d requests: %s" % (cs["kind"], len(cs["reqs"]), cs["oracle"][0]),
+                      {"stream": slim(cs), "seed": chk.seed, "tier": chk.tier}, True)
+    if data.get("lookup_wrong"):
+        chk.violation("routing step under concurrent requests of different branch types: " + data["lookup_wrong"][0],
+                      {"lookups": data["lookups"], "wrong": data["lookup_wrong"], "workers": 8, "seed": chk.seed, "tier": chk.tier,
+                       "how": "8 goroutines call rm.GetRmCacheInstance().GetResourceManager(bt) for alternating AT/TCC/XA, as concurrent "
+                              "phase-two requests of different branch types do"}, True)
+    # listed finding: a manager returning an error together with a success status
+    known = {k["id"]: k for k in vlib.known_findings("C15")}
+    for cs in streams:
+        if cs["kind"] == "known" and cs["known"]:
+            if "error-with-success-status" in known:
+                chk.known("id=error-with-success-status pred=mgr.error-with-success-status :: " + known["error-with-success-status"]["what"])
+            else:
+                chk.violation("known stream: " + cs["known"][0], {"stream": cs, "seed": chk.seed, "tier": chk.tier}, True)
     corr = [k for k in mism if not streams[owner[k][0]]["oracle"]]
     if corr and not chk.violations:
         si, qi = owner[sorted(corr)[0]]
@@ -100,7 +137,7 @@ def run(chk):
         q = cs["reqs"][qi]
         chk.violation("the real processors and the model (at the regenerated dispatch table) disagree on request %s; "
                       "the property's own statement did not fail on this stream" % json.dumps(q),
-                      {"request": q, "stream": cs, "seed": chk.seed, "tier": chk.tier,
+                      {"request": q, "stream": slim(cs), "seed": chk.seed, "tier": chk.tier,
                        "correspondence": "Remoting/ProcessorCases.v check_case"}, False)
     if not pr["ok"] and not chk.violations:
         tbl = open(os.path.join(vlib.COQ, "Gen", "DispatchTable.v")).read()
@@ -110,30 +147,33 @@ def run(chk):
     reqs = [q for cs in streams for q in cs["reqs"]]
 
     def kind(q):
-        return (q["code"], q["btype"], q["fail"], q["panic_in_manager"], q["status"])
+        return (q["code"], q["btype"], q["fail"], q["panic_in_manager"], q["expect"])
 
     p2 = [q for q in reqs if q["code"] in (3, 5)]
     chk.coverage.update({
         "trusted_base": TRUSTED,
         "evaluations": len(reqs),
         "distinct_nontrivial": vlib.distinct([(q["code"], q["msg_id"], q["xid"], q["branch"], q["btype"], q["resource"], q["data"],
-                                               q["status"], q["fail"], q["panic_in_manager"]) for q in p2]),
+                                               q["expect"], q["fail"], q["panic_in_manager"]) for q in p2]),
         "rule": "streams of 1..max requests generated from the seed and delivered concurrently on one session: 92% branch commit/rollback "
                 "(branch types AT/TCC/XA, 10% unregistered types 2/4/9/100/255; manager scripted per (xid, branch id): any status 0..11, "
                 "25% error, 4% panic, delays), 8% other traffic (no processor / heartbeat); every fifth stream is the malformed one (a third "
                 "of its requests get a random type code and a third an unregistered branch type). Non-trivial = a phase-two request; "
                 "distinct by all request fields and the scripted outcome",
         "streams": len(streams),
+        "streams_by_kind": {k: sum(1 for cs in streams if cs["kind"] == k) for k in sorted({cs["kind"] for cs in streams})},
+        "concurrent_lookups_checked": data.get("lookups"),
+        "model_cases_evaluated_in_coq": len(terms),
         "max_stream": max(len(cs["reqs"]) for cs in streams),
         "request_kinds_covered": vlib.distinct([kind(q) for q in reqs]),
         "responses_captured": sum(len(cs["resps"] or []) for cs in streams),
         "manager_consultations": sum(len(cs["consults"] or []) for cs in streams),
         "panics_observed": sum(1 for q in reqs if q.get("panicked")),
-        "traces_validated_against_impl": len(reqs) - len(mism),
+        "traces_validated_against_impl": len(terms) - len(mism),
         "direct_oracle_failures": len(bad_streams),
         "registered_branch_types": streams[0]["mgrs"] if streams else [],
-        "samples": [dict(streams[0], reqs=streams[0]["reqs"][:4], consults=(streams[0]["consults"] or [])[:4],
-                         resps=(streams[0]["resps"] or [])[:4])] if streams else [],
+        "samples": [dict(cs, reqs=cs["reqs"][:4], consults=(cs["consults"] or [])[:4], resps=(cs["resps"] or [])[:4])
+                    for cs in [c for c in streams if c["kind"] == "mixed" and len(c["reqs"]) > 3][:1] + streams[:1]],
     })
     chk.assumptions += ["silence after a manager error is accepted (C15's text); a reply with a retryable status is C05's concern",
                         "managers are scripted stand-ins registered in the real cache; the shipped managers enter only through the "
